@@ -47,10 +47,11 @@ var props = map[string]propCfg{
 			"token stream: psNext (tkzNext executed in place, nextToken through its contract) keeps the liveness invariant (current token inside the buffer, every token but EOF at least one byte long) and strictly advances unless at EOF; psSkipEOL / psNextNOL / tkzNextNOL terminate (variant: bytes left) and return a state that is not at an end-of-line token",
 			"the type parser terminates on every token stream: parseType / parseTypeArrows / parseElemType / parseTermType / parseAtomType / parseTypeList / mightParseSpecifiedTypeList / parseFullName / parseFieldDefs carry the variant 8*bytes-left + rank, checked at every call inside the group including the calls through the function-typed parameter, and the ParseList2 loop of parseElemType has the loop variant bytes-left (each element parser strictly advances)",
 			"forward-declaration retry transTRecurse terminates (variant 1001 - count)",
+			"the traversals of type expressions collectTVarFTypeWithSet and transTVFTypeWithSet (with transRecType and every slice.Map / slice.Collect executed in place) terminate also on recursive union types: lexicographic variant (registered type names not yet visited, structural size), checked at all 15 recursion sites - under the carve-out of known finding F11 (no record type contains itself)",
 			"the generic list loops ParseList / ParseList2 terminate (variant: bytes left) whenever the element parser strictly advances on every live state that is not at end of input, the separator step does not go back and end of input ends the list; an EOF token exists only at the end of the buffer (scanTokenAt, nextToken)",
 		},
 		Scans:      []func(*run){scanFsWrites},
-		NotDecided: []string{"termination of the rest of the recursive-descent parser (expressions, statements, definitions) and of type inference (two known non-terminating inputs, DESIGN §6: `let f x = x x`, `type A = {X: []A}`)", "a type factory stored in the scope (a function value) is assumed to return or panic"},
+		NotDecided: []string{"termination of the rest of the recursive-descent parser (expressions, statements, definitions) and of type inference (a known non-terminating input, DESIGN §6: `let f x = x x`)", "a type factory stored in the scope (a function value) is assumed to return or panic"},
 	},
 	"C15": {
 		Modules: []string{"fc"},
